@@ -111,13 +111,25 @@ def perturb(rng, ns):
     return out
 
 
-def argv_of(ns, outdir, rng=None):
+LONG = {'-numinst': '--numberinstances', '-o': '--outputdirectory', '-mp': '--matchingproblem', '-twopl': '--preferencelists2',
+        '-skew': '--linearskew', '-n1': '--numberofagents1', '-n2': '--numberofagents2', '-n3': '--numberofagents3',
+        '-pmin': '--minpreflistlength', '-pmax': '--maxpreflistlength', '-t1': '--ties1', '-t2': '--ties2',
+        '-lq': '--lowerquotas', '-llq': '--lecturerlowerquotas', '-uq': '--upperquotas', '-luq': '--lecturerupperquotas',
+        '-lt': '--lecturertargets'}
+
+
+def argv_of(ns, outdir, rng=None, spell=None):
+    """spell: a PRNG deciding, per option, between the short and the documented long spelling"""
     flags = [['-numinst', str(ns['numinst'])], ['-o', outdir], ['-mp', ns['mp']]]
     if ns['twopl']:
         flags.append(['-twopl'])
     for f in FIELDS:
         if ns.get(f) is not None:
             flags.append([FLAG[f], str(ns[f])])
+    if spell is not None:
+        for f in flags:
+            if f[0] in LONG and spell.random() < 0.3:
+                f[0] = LONG[f[0]]
     if rng:
         rng.shuffle(flags)
     return [x for f in flags for x in f]
@@ -171,8 +183,14 @@ def run_generator(ns, seed=0, shuffle_flags_seed=None):
     try:
         if precreated:
             os.makedirs(outdir)
+            if seed % 2 == 0:
+                # ... which already holds other files: notes, and instances of an earlier, larger batch
+                for nm in ('notes.txt', '%d.txt' % (ns.get('numinst', 1) + 3), 'README'):
+                    with open(os.path.join(outdir, nm), 'w') as fh:
+                        fh.write('left over\n')
+                out['leftovers'] = ['notes.txt', '%d.txt' % (ns.get('numinst', 1) + 3), 'README']
         rng = pyrandom.Random(shuffle_flags_seed) if shuffle_flags_seed is not None else None
-        argv = argv_of(ns, outdir, rng)
+        argv = argv_of(ns, outdir, rng, spell=pyrandom.Random(seed * 7 + 1))
         out['argv'] = [a if a != outdir else '<out>' for a in argv]
         with recorded_rng(seed) as log, contextlib.redirect_stderr(io.StringIO()):
             try:
@@ -188,11 +206,13 @@ def run_generator(ns, seed=0, shuffle_flags_seed=None):
                 out['exc'] = [type(e).__name__, str(e)[:200]]
         out['log'] = log.log
         out['dir_created'] = (os.path.exists(os.path.join(base, 'out')) and not precreated) or \
-            (precreated and bool(os.listdir(outdir)))
+            (precreated and sorted(os.listdir(outdir)) != sorted(out.get('leftovers', [])))
         out['precreated'] = precreated
         if os.path.isdir(outdir):
             names = sorted(os.listdir(outdir), key=lambda s: (len(s), s))
             for nm in names:
+                if nm in out.get('leftovers', ()):
+                    continue
                 with open(os.path.join(outdir, nm), newline='') as f:
                     out['files'].append([nm, f.read()])
     finally:
